@@ -24,7 +24,7 @@ fn main() {
     let args: Vec<String> = std::env::args().collect();
     let sub = args.get(1).map(|s| s.as_str()).unwrap_or("");
     std::panic::set_hook(Box::new(|_| {}));
-    if sub == "stress" {
+    if sub == "stress" || sub == "teardown" {
         tracing::subscriber::set_global_default(stress::StressCapture).expect("subscriber");
     } else {
         let cap = log::Capture::new(vec![std::any::type_name::<scripted::Msg>()], false);
@@ -85,6 +85,14 @@ fn main() {
                              "first_drifts": drifts, "feats": feats()});
             std::fs::write(&report, serde_json::to_string_pretty(&rep).unwrap()).unwrap();
             println!("replay: runs={runs} events={events} drift={ndrift} inapplicable={inappl}");
+        }
+        "teardown" => {
+            let iters: u64 = arg(&args, "--iters").and_then(|s| s.parse().ok()).unwrap_or(1000);
+            let seed: u64 = arg(&args, "--seed").and_then(|s| s.parse().ok()).unwrap_or(1);
+            let sample: u64 = arg(&args, "--sample").and_then(|s| s.parse().ok()).unwrap_or(100);
+            let out = arg(&args, "--out").expect("--out");
+            let (asks, hung, written) = stress::run_teardown(iters, seed, &out, feats(), sample);
+            println!("teardown: iterations={iters} asks={asks} runs_with_pending={hung} runs_written={written}");
         }
         "laws" => {
             let inp = arg(&args, "--in").expect("--in");
